@@ -233,6 +233,9 @@ fn tree_hand() -> Vec<Decl> {
         d("*IDN?", &[], R::Idn, true),
         d("*OPC?", &[], R::Hid, false),
         d("*CLS", &[], R::Unit, false),
+        d("*ESE", &[U8], R::Unit, true),
+        d("*ESE?", &[], R::Hid, true),
+        d("*SRE", &[U8, Bool], R::Unit, false),
         d("FOO", &[], R::Unit, true),
         d("BAR", &[], R::Unit, false),
         d("BAZ?", &[], R::Hid, true),
@@ -327,6 +330,8 @@ fn tree_random(rng: &mut Rng) -> Vec<Decl> {
         d("*RST", &[], R::Unit, true),
         d("*IDN?", &[], R::Idn, false),
         d("*OPC?", &[], R::Hid, true),
+        d("*ESE", &[P::U8], R::Unit, true),
+        d("*ESE?", &[], R::Hid, false),
         d("FAIL", &[P::I16], R::Fail, true),
         d("FAIL?", &[P::I16], R::FailQ, false),
         d("ECHO?", &[P::Str], R::EchoStr, true),
